@@ -85,6 +85,20 @@ class Ctx(ChainContext):
         return {k: ExecutionUnits(m, s) for k, (m, s) in self._eval.items()}
 
 
+from dataclasses import dataclass as _dc
+from typing import List as _List
+from pycardano.plutus import PlutusData as _PD
+from pycardano.serialization import IndefiniteList
+
+
+@_dc
+class _ListDatum(_PD):
+    CONSTR_ID = 1
+    xs: _List[int]
+    ys: _List[bytes]
+    zs: _List[int]
+
+
 def out(v):
     try:
         return ['i', int(v())]
@@ -256,6 +270,13 @@ def build_case(case):
             for a in sc.get('input_addresses', []):
                 b.add_input_address(mk_addr(a))
             for o in sc['outputs']:
+                if o.get('ilist_datum'):
+                    # an inline datum whose typed List fields hold IndefiniteLists (what reproduces an on-chain datum hash):
+                    # its deep copy / CBOR round trip is a plain list and encodes one byte shorter per list
+                    d = _ListDatum(IndefiniteList(list(range(o['ilist_datum']))), IndefiniteList([b'ab', b'cd']), IndefiniteList([7]))
+                    b.add_output(TransactionOutput(mk_addr(o['addr']), Value(o['coin'], mk_ma(o.get('ma'))), datum=d,
+                                                   post_alonzo=True))
+                    continue
                 b.add_output(TransactionOutput(mk_addr(o['addr']), Value(o['coin'], mk_ma(o.get('ma')))))
             if sc.get('mint'):
                 pols = [mk_native(s) for s in sc['mint']['policies']]
